@@ -5,7 +5,7 @@
 
 use crate::big::digit_value;
 
-#[derive(Clone, Debug, Default)]
+#[derive(Clone, Debug, Default, PartialEq, Eq)]
 pub struct FmtDesc {
     pub name: &'static str,
     pub mantissa_radix: u32,
